@@ -239,7 +239,7 @@ def body_spelling(ctx: H.BaseCtx):
                 extra.append(("numpy.add.accumulate", lambda: numpy.add.accumulate(a, axis=kw["axis"])))
         if src == "c09" and name in ("reshape", "transpose", "repeat", "diagonal"):
             if name == "reshape" and isinstance(par["shape"], list):
-                extra.append(("poly.reshape()", lambda: a.reshape(tuple(par["shape"]))))
+                extra.append(("poly.reshape()", lambda: a.reshape(tuple(par["shape"]), order=par.get("order", "C"))))
             if name == "transpose":
                 extra.append(("poly.transpose()", lambda: a.transpose(par.get("axes")) if par.get("axes") is not None else a.transpose()))
             if name == "diagonal":
